@@ -430,6 +430,23 @@ func runC03(c *Ctx) {
 					}
 				}
 			}
+			if !ok2 && dataVal != nil {
+				// the result travels through variables (code that came back from a helper): every value its data field
+				// can hold is the payload just received, or the zero value of a path that does not deliver
+				if ls, okL := structFieldLeaves(snd.X, "data", 0); okL && len(ls) > 0 {
+					saw, other := false, false
+					for _, l := range ls {
+						switch {
+						case l == nil || isNilConst(l):
+						case l == dataVal:
+							saw = true
+						default:
+							other = true
+						}
+					}
+					ok2 = saw && !other
+				}
+			}
 			c.check(ok2, "R4", "recv delivers the received payload", pos(snd), "result.data is the payload just received", "the delivered result does not carry the payload that was just received")
 			// delivery only when the lookup succeeded
 			if getCall != nil {
